@@ -109,7 +109,8 @@ def prober_model(tier):
 
 def prober_case(args):
     """Real prober on a position-encoding operator (generic path through no_dispatch)."""
-    n, k, dtname = args
+    n, k, dtname = args[:3]
+    default_alg = len(args) > 3      # the automatic default (no algorithm argument) instead of Exact()
     from .. import build
     import cola
     from cola.linalg.trace.diagonal_estimation import Exact
@@ -123,7 +124,11 @@ def prober_case(args):
     try:
         with warnings.catch_warnings():
             warnings.simplefilter("ignore")
-            got = np.asarray(cola.linalg.diag(op, k, Exact()))
+            got = np.asarray(cola.linalg.diag(op, k) if default_alg else cola.linalg.diag(op, k, Exact()))
+            if default_alg and k == 0:
+                tr = complex(np.asarray(cola.linalg.trace(op)).reshape(-1)[0])
+                if abs(tr - np.trace(M.astype(np.complex128))) > (1e-4 if dtname in ("f32", "c64") else 1e-11) * n * 1010:
+                    return (n, k, dtname, "trace", f"trace(A) = {tr} but the trace is {np.trace(M.astype(np.complex128))}")
     except Exception as e:  # noqa: BLE001
         return (n, k, dtname, "exception", f"{type(e).__name__}: {str(e)[:120]}")
     if got.shape != exp.shape:
@@ -153,12 +158,17 @@ def run(tier):
                               f"Prober.tla: the transcribed chunk arithmetic gives {v}", replay={"prober": [n, k]}))
     jobs = [(n, k, dt) for n in list(range(1, 13)) + list(BIG_N) for k in (offsets_for(n) if n > 12 else range(1 - n, n))
             for dt in (("f64", "c64") if n <= 101 else ("f64", ))]
-    real = common.pmap(prober_case, jobs, chunksize=4)
-    for n, k, dt, verdict, msg in real:
+    # the automatic default at its default tolerance must take the exact path too, in every precision and on sizes
+    # well above the probing block (the exact/stochastic switch depends on tolerance and size)
+    auto_jobs = [(n, k, dt, "default") for n in (230, 1030) for k in (0, 1, -2) for dt in ("f32", "f64", "c64")]
+    real = common.pmap(prober_case, jobs + auto_jobs, chunksize=4)
+    for (n, k, dt, verdict, msg), job in zip(real, jobs + auto_jobs):
         if verdict != "ok":
-            viol.append(Violation(PROP, "prober_" + verdict, f"diag(no_dispatch(Dense {n}x{n} {dt}), k={k}, Exact)",
-                                  {"n": n, "k": k, "dt": dt, "divisible": n % min(100, n) == 0,
-                                   "model": model.get((n, min(100, n), k), "n/a")}, msg, replay={"prober": [n, k, dt]}))
+            how = "default algorithm" if len(job) > 3 else "Exact"
+            viol.append(Violation(PROP, "prober_" + verdict, f"diag(no_dispatch(Dense {n}x{n} {dt}), k={k}, {how})",
+                                  {"n": n, "k": k, "dt": dt, "divisible": n % min(100, n) == 0, "alg": how,
+                                   "model": model.get((n, min(100, n), k), "n/a")}, msg,
+                                  replay={"prober": list(job)}))
     # (a) structural rules
     cases, stats = opsfam.run_model(PROP, linalgfam.plan(tier, common.seed(), nonsq=True))
     cases = linalgfam.linalg_cases(cases)
@@ -188,7 +198,7 @@ def replay(path):
     if "prober" in v["replay"]:
         n, k = v["replay"]["prober"][:2]
         dt = v["replay"]["prober"][2] if len(v["replay"]["prober"]) > 2 else "f64"
-        r = prober_case((n, k, dt))
+        r = prober_case((n, k, dt) + tuple(v["replay"]["prober"][3:]))
         print(r)
         if r[3] != "ok":
             print(f"VIOLATION property={PROP} replay={path}")
